@@ -29,6 +29,17 @@ fn main() {
             let wd: u64 = args.get(5).and_then(|s| s.parse().ok()).unwrap_or(10);
             pool::run(n, &args[3], &args[4], wd);
         }
+        "srv" => {
+            // the real accept loop (Server::run) and pool on a real socket, with an application that fails on demand:
+            // vh srv <ip> <port> <workers>   (settings like the shipped binary: defaults, then environment)
+            rws::entry_point::set_default_values();
+            let n: usize = args[4].parse().expect("workers");
+            let addr = if args[2].contains(':') { format!("[{}]:{}", args[2], args[3]) } else { format!("{}:{}", args[2], args[3]) };
+            let listener = std::net::TcpListener::bind(addr.as_str()).expect("bind");
+            let pool = rws::thread_pool::ThreadPool::new(n);
+            println!("Spawned {} thread(s)", n);
+            rws::server::Server::run(listener, pool, probe::MixedApp);
+        }
         "b64" => {
             b64::run(&args[2..]);
         }
@@ -49,7 +60,7 @@ fn main() {
             let _ = writeln!(o, "RAS\t{}", rws::entry_point::get_request_allocation_size());
         }
         _ => {
-            eprintln!("usage: vh probe <cases> <obs> <journal> | pool <n> <spec> <out> [watchdog_s] | b64 ... | cfgdump");
+            eprintln!("usage: vh probe <cases> <obs> <journal> | pool <n> <spec> <out> [watchdog_s] | srv <ip> <port> <workers> | b64 ... | cfgdump");
             std::process::exit(2);
         }
     }
